@@ -3,6 +3,7 @@ import Props.GenCapstoneAppend
 import Props.GenCapstoneViews
 import Props.GenCapstoneRebuild
 import Props.GenCapstoneIter
+import Props.GenCapstoneBounded
 import Proofs.System
 /-!
 # Props.GenCapstoneSystem — every history of the TRANSLATED operations
@@ -264,6 +265,50 @@ theorem translated_system_append_dominates {U : List Entry} {L : List Log} (r : 
   have T := treach_inv r
   have I := T.inv l hl
   exact translated_append_plan I ho (fun e he => T.uNe e (I.inU e he)) pcOpt
+
+/-- **C16 for any two replicas of any reachable state**, entirely on generated code: the translated `Join` with a bound
+    `n ≥ 0` leaves exactly the last `min n total` of the values that the translated `values` lists for the result of
+    the translated unbounded `Join`, with the unreferenced ones among them as heads -/
+theorem translated_system_join_bounded {U : List Entry} {L : List Log} (r : TReach U L) {A B : Log}
+    (hA : A ∈ L) (hB : B ∈ L) (ho : OrderOk A.sortFn (joinU A B).entries) (n : Int) (hn : 0 ≤ n) :
+    ∃ (cands Eu : List Entry) (Nu : List Hash) (Hu : List Entry) (tu : Int) (vs E' : List Entry) (N' : List Hash)
+      (H' : List Entry) (t : Int),
+      Generated.Go.logDifference (diffFuel B.entries B.heads) B.entries B.heads A.entries A.id = some cands ∧
+      Generated.Go.joinTail (fun E H => values { A with entries := E, heads := H })
+        A.entries A.nextIdx A.heads A.clock.id A.clock.time cands B.heads (-1) = some (A.clock.id, tu, Eu, Nu, Hu) ∧
+      Generated.Go.values (traverseFuel Eu Hu) Eu (before A.sortFn) Hu = some vs ∧
+      Generated.Go.joinTail (fun E H => values { A with entries := E, heads := H })
+        A.entries A.nextIdx A.heads A.clock.id A.clock.time cands B.heads n = some (A.clock.id, t, E', N', H') ∧
+      E' = vs.drop (vs.length - n.toNat) ∧
+      (∀ x, x ∈ H' ↔ x ∈ E' ∧ ¬ namedBy E' x.hash) := by
+  have T := treach_inv r
+  have IA := T.inv A hA
+  have IB := T.inv B hB
+  have hid := T.sameId A hA B hB
+  obtain ⟨cands, E', N', H', t, hd, hb, hE', hH'⟩ := translated_join_bounded T.uNodup IA IB hid ho n hn
+  obtain ⟨c2, Eu, Nu, Hu, tu, hd2, hu, hinv⟩ := translated_join_preserves_inv T.uNodup IA IB hid
+  rw [hd] at hd2
+  have ec : cands = c2 := Option.some.inj hd2
+  subst ec
+  -- the candidates are the model's difference, the unbounded result the model's joinU
+  have hc : cands = difference B.entries B.heads A := by
+    have := logDifference_eq B.entries B.heads A
+    rw [hd] at this
+    exact Option.some.inj this
+  have IJ : Inv U (joinU A B) := inv_join T.uNodup IA IB hid
+  have hne : ∀ e ∈ (joinU A B).entries, e.hash ≠ [] := fun e he => T.uNe e (IJ.inU e he)
+  have hv := values_eq (joinU A B) hne (fun e he => hne e (IJ.headsIn e he))
+  have hEu : Eu = (joinU A B).entries ∧ Hu = (joinU A B).heads := by
+    have h1 : Generated.Go.joinTail (fun E H => values { A with entries := E, heads := H })
+        A.entries A.nextIdx A.heads A.clock.id A.clock.time cands B.heads (-1) =
+        some (A.clock.id, (joinU A B).clock.time, (joinU A B).entries, (joinU A B).nextIdx, (joinU A B).heads) := by
+      rw [hc, joinTail_eq A B.entries B.heads (-1), joinTrim_unbounded]; rfl
+    rw [hu] at h1
+    injection h1 with h2
+    exact ⟨(Prod.mk.inj (Prod.mk.inj (Prod.mk.inj h2).2).2).1, (Prod.mk.inj (Prod.mk.inj (Prod.mk.inj (Prod.mk.inj h2).2).2).2).2⟩
+  refine ⟨cands, Eu, Nu, Hu, tu, values (joinU A B), E', N', H', t, hd, hu, ?_, hb, hE', hH'⟩
+  rw [hEu.1, hEu.2]
+  exact hv
 
 /-- progress: in a reachable state the translated `Append` of any replica (ordering a strict total order on its
     entries, any pointer count, a fresh non-empty CID) returns, and its result is reachable -/
